@@ -15,7 +15,7 @@ def truthy_flag(b):
     return b is not None and b
 
 
-@contract("flumine/order/process.py::process_current_order", tags=["C03"])
+@contract("flumine/order/process.py::process_current_order", tags=["C03", "C12", "C11"])  # C12/C11: the response handlers rely on the stream leaving an order with a request in flight alone
 def _(order: Ref("BaseOrder"), current_order: Ref("CurrentOrder"), log_control: CALLBACK):
     requires("live_order_stream", not order._simulated)
     modifies(order.responses, "current_order")
